@@ -394,7 +394,24 @@ def observe_run(C, reads1, reads2, workdir):
     if res.exit != 0 or res.exception is not None or res.json is None:
         ev["failed"] = dict(exit=res.exit, errors=res.errors[:3], exc=repr(res.exception))
         return ev, sampler, res
-    cfg = model_cfg(C, sampler.desc1, sampler.desc2)
+    # The model's adapter lists are those of the command line (ranks, "the adapter given first", names by
+    # position); the built objects only supply class and Locate oracle.  If the program built a different
+    # number of adapters than were given (e.g. repeated adapters merged), every given adapter is mapped to the
+    # built object with the same class and sequence.
+    def as_given(given, descs):
+        if len(given) == len(descs) or any(a.get("linked") for a in given):
+            return descs
+        out = []
+        for pos, a in enumerate(given):
+            hit = [d for d in descs if d["cls"] != "linked" and chr_seq(d["aseq"]) == a["seq"].upper()
+                   and d["cls"] == {"a": "back", "g": "front", "b": "anywhere"}[a["opt"]]]
+            if not hit:
+                return descs
+            out.append(dict(hit[0], name=codes(a.get("name") or str(pos + 1))))
+        return out
+    chr_seq = lambda cs: "".join(map(chr, cs))
+    ev["adapters_built_differ_from_given"] = len(C.get("ads1", [])) != len(sampler.desc1) or len(C.get("ads2", [])) != len(sampler.desc2)
+    cfg = model_cfg(C, as_given(C.get("ads1", []), sampler.desc1), as_given(C.get("ads2", []), sampler.desc2))
     # ---- output files -> per-read observations
     roles = {}
     for fname, data in res.files.items():
@@ -562,7 +579,7 @@ def adapter_stats(jlist, descs, sampler):
     """JSON adapters_read1/2 -> observation records for the C20 clauses."""
     out = []
     for d, a in zip(descs, jlist):
-        def end(x, single):
+        def end(x, part_id):
             if x is None:
                 return False, 0, [], [0, 0, 0, 0, 0], [], 0, 1, 0
             hist = []
@@ -572,17 +589,20 @@ def adapter_stats(jlist, descs, sampler):
                         hist.append([row["len"], errs, cnt])
             adj = x.get("adjacent_bases")
             adjl = [adj.get(b, 0) for b in ("A", "C", "G", "T", "")] if adj else [0, 0, 0, 0, 0]
-            rate = Fraction(repr(x["error_rate"])).limit_denominator(1000)
+            # the maximum error rate is the one the adapter was built with (not the figure the report prints)
+            ad_obj = sampler.by_id.get(part_id)
+            f = float(ad_obj.max_error_rate) if ad_obj is not None and hasattr(ad_obj, "max_error_rate") else x["error_rate"]
+            rate = Fraction(repr(f)).limit_denominator(1000)
             seq = x["sequence"]
             eff = len(seq) - seq.count("N") if any(c not in "ACGT" for c in seq) else len(seq)
             ranges = list(x["error_lengths"] or [])
             # R3: keep the ranges clause only where double and exact arithmetic agree for every length
-            f = x["error_rate"]
             if any(int(f * L) != (rate.numerator * L) // rate.denominator for L in range(eff + 1)):
                 ranges = []
             return True, x["matches"], hist, adjl, ranges, rate.numerator, rate.denominator, eff
-        fp, fm, fh, _fa, fr, fnum, fden, feff = end(a["five_prime_end"], None)
-        bp_, bm, bh, ba, br, bnum, bden, beff = end(a["three_prime_end"], None)
+        linked = d["cls"] == "linked"
+        fp, fm, fh, _fa, fr, fnum, fden, feff = end(a["five_prime_end"], d["f"] if linked else d["id"])
+        bp_, bm, bh, ba, br, bnum, bden, beff = end(a["three_prime_end"], d["b"] if linked else d["id"])
         out.append(dict(id=d["id"], name=codes(a["name"]), fpresent=fp, fmatches=fm, fhist=fh, bpresent=bp_, bmatches=bm, bhist=bh,
                         badj=ba, total=a["total_matches"], onrc=-1 if a["on_reverse_complement"] is None else a["on_reverse_complement"],
                         franges=fr, fnum=fnum, fden=fden, feff=feff, branges=br, bnum=bnum, bden=bden, beff=beff))
